@@ -428,17 +428,6 @@ func mustReject(ks *tinkpb.Keyset) string {
 	return ""
 }
 
-func hasSecretMaterial(ks *tinkpb.Keyset) bool {
-	for _, k := range ks.GetKey() {
-		switch k.GetKeyData().GetKeyMaterialType() {
-		case tinkpb.KeyData_ASYMMETRIC_PUBLIC, tinkpb.KeyData_REMOTE:
-		default:
-			return true
-		}
-	}
-	return false
-}
-
 // wellFormed: what the property promises of every handle that is returned.
 func wellFormed(h *keyset.Handle) string {
 	if h.Len() == 0 {
@@ -910,9 +899,6 @@ func c14Check(in, obs string) string {
 		}
 		if must != "" {
 			return fmt.Sprintf("path %s: handle returned although the input must be rejected (%s)", r.paths[i], must)
-		}
-		if r.paths[i] == "n" && r.ks != nil && hasSecretMaterial(r.ks) {
-			return "nosecrets-material: no-secrets reader returned a handle for a keyset whose key material type is not ASYMMETRIC_PUBLIC or REMOTE"
 		}
 		if w := wellFormed(h); w != "" {
 			return fmt.Sprintf("path %s: ill-formed handle: %s", r.paths[i], w)
